@@ -535,7 +535,7 @@ func parseContractFile(path, pkg string) (*ContractFile, error) {
 			cur = &FnSpec{Key: key, Kind: c.kw, Pkg: pkg, Loops: map[int]*LoopSpec{}, Line: c.line}
 			if c.kw == "lemma" || c.kw == "ext" || c.kw == "iface" || c.kw == "lockinv" {
 				// NAME(p1, p2) form gives parameter names
-				if i := strings.Index(key, "("); i > 0 && strings.HasSuffix(key, ")") && !strings.HasPrefix(key, "(") {
+				if i := strings.LastIndex(key, "("); i > 0 && strings.HasSuffix(key, ")") && (unicode.IsLetter(rune(key[i-1])) || unicode.IsDigit(rune(key[i-1])) || key[i-1] == '_') {
 					ps := strings.Split(key[i+1:len(key)-1], ",")
 					cur.Key = strings.TrimSpace(key[:i])
 					for _, p := range ps {
